@@ -172,7 +172,18 @@ func (db *MemDB) AwaitProposal(ctx context.Context, slot uint64) (*eth2api.Versi
 	case <-ctx.Done():
 		return nil, ctx.Err()
 	case block := <-response:
-		return block, nil
+		// Clone before returning.
+		clone, err := core.VersionedProposal{VersionedProposal: *block}.Clone()
+		if err != nil {
+			return nil, err
+		}
+
+		proposal, ok := clone.(core.VersionedProposal)
+		if !ok {
+			return nil, errors.New("invalid versioned proposal")
+		}
+
+		return &proposal.VersionedProposal, nil
 	}
 }
 
@@ -201,7 +212,19 @@ func (db *MemDB) AwaitAttestation(ctx context.Context, slot uint64, commIdx uint
 	case <-ctx.Done():
 		return nil, ctx.Err()
 	case value := <-response:
-		return value, nil
+		// Clone before returning.
+		clone := *value
+		if value.Source != nil {
+			source := *value.Source
+			clone.Source = &source
+		}
+
+		if value.Target != nil {
+			target := *value.Target
+			clone.Target = &target
+		}
+
+		return &clone, nil
 	}
 }
 
@@ -275,7 +298,18 @@ func (db *MemDB) AwaitSyncContribution(ctx context.Context, slot, subcommIdx uin
 	case <-ctx.Done():
 		return nil, ctx.Err()
 	case value := <-response:
-		return value, nil
+		// Clone before returning.
+		clone, err := core.NewSyncContribution(value).Clone()
+		if err != nil {
+			return nil, err
+		}
+
+		contrib, ok := clone.(core.SyncContribution)
+		if !ok {
+			return nil, errors.New("invalid sync contribution")
+		}
+
+		return &contrib.SyncCommitteeContribution, nil
 	}
 }
 
